@@ -73,23 +73,28 @@ let handle (toks : string list) : string =
        | [cfg; steps; [dropped; emitted; cap; len]; proc] ->
            let c = cfg_of cfg in
            let proc = List.map id_of proc in
-           (try
-              let (s, expanded) = replay c steps in
-              (* the property on the implementation's own observation *)
-              let ns = emitted_per_producer s in
-              (match chk_C19 c.ig_strat c.ig_cap0 c.ig_max ns (nat dropped) (nat emitted) (nat cap) (nat len) proc with
-               | Some cl -> Printf.sprintf "chk %s forced processed=%s dropped=%s emitted=%s cap=%s queued=%s" (clause_str cl) (ids_str proc) dropped emitted cap len
-               | None ->
-                   let m = Printf.sprintf "%d %d %d %d|%s" (ni s.ig_dropped) (ni s.ig_emitted) (ni (ig_cap s)) (ni (ig_len s)) (ids_str s.ig_processed) in
-                   let i = Printf.sprintf "%s %s %s %s|%s" dropped emitted cap len (ids_str proc) in
-                   if m <> i then Printf.sprintf "diff final model=%s impl=%s" m i
-                   else if expanded || ni s.ig_dropped > 0 then "ok nt" else "ok")
-            with Diff d ->
-              (* the model could not follow: still judge the implementation's end state *)
-              let ns = List.init 8 (fun p -> nat_of_int (List.length (List.filter (fun (q, _) -> ni q = p) proc) + 100000)) in
-              if not (ig_orderedb proc) then Printf.sprintf "chk producer_order forced processed=%s (%s)" (ids_str proc) d
-              else if not (ig_nodupb proc) then Printf.sprintf "chk no_duplicate forced processed=%s (%s)" (ids_str proc) d
-              else (ignore ns; "diff " ^ d))
+           (* rows emitted per producer = the Emit calls the harness issued (tokens `E p` and `em p`) *)
+           let counts = Array.make 8 0 in
+           let rec cnt = function
+             | ("E" | "em") :: p :: r -> let p = int_of_string p in counts.(p) <- counts.(p) + 1; cnt r
+             | _ :: r -> cnt r
+             | [] -> () in
+           cnt steps;
+           let ns = List.map nat_of_int (Array.to_list counts) in
+           let model = (try Ok (replay c steps) with Diff d -> Error d) in
+           (* the property on the implementation's own end state, whether or not the model could follow *)
+           (match chk_C19 c.ig_strat c.ig_cap0 c.ig_max ns (nat dropped) (nat emitted) (nat cap) (nat len) proc with
+            | Some cl ->
+                Printf.sprintf "chk %s forced processed=%s dropped=%s emitted=%s cap=%s queued=%s%s" (clause_str cl) (ids_str proc)
+                  dropped emitted cap len (match model with Error d -> " (" ^ d ^ ")" | Ok _ -> "")
+            | None ->
+                (match model with
+                 | Error d -> "diff " ^ d
+                 | Ok (s, expanded) ->
+                     let m = Printf.sprintf "%d %d %d %d|%s" (ni s.ig_dropped) (ni s.ig_emitted) (ni (ig_cap s)) (ni (ig_len s)) (ids_str s.ig_processed) in
+                     let i = Printf.sprintf "%s %s %s %s|%s" dropped emitted cap len (ids_str proc) in
+                     if m <> i then Printf.sprintf "diff final model=%s impl=%s" m i
+                     else if expanded || ni s.ig_dropped > 0 then "ok nt" else "ok"))
        | _ -> "bad line")
   | "R" :: rest ->
       (match Win.split_hash rest with
